@@ -8,6 +8,7 @@ import (
 	"context"
 	"errors"
 	"fmt"
+	"net"
 	"runtime"
 	"strings"
 	"sync"
@@ -169,6 +170,7 @@ func TestVerif_C08_Close(t *testing.T) {
 		if !controlling {
 			peerRole = "controlling"
 		}
+		var lastGatherDone chan struct{}
 		var blocked []c08Blocked
 		spawn := func(name string, f func() error) {
 			ch := make(chan error, 1)
@@ -180,7 +182,10 @@ func TestVerif_C08_Close(t *testing.T) {
 		runOp := func(op string) {
 			switch op {
 			case "gather":
-				_ = a.GatherCandidates()
+				if a.GatherCandidates() == nil {
+					// remember the cycle's done channel: Close waits for the latest gathering goroutine
+					_ = a.loop.Run(a.loop, nil2(func() { lastGatherDone = a.gatherCandidateDone }))
+				}
 				c11Jitter(rapid.IntRange(0, 20).Draw(rt, "gatherJitter"))
 			case "addRemote":
 				_ = a.AddRemoteCandidate(s.epCandidate(0, soloEpSpec{Typ: CandidateTypeHost}))
@@ -348,6 +353,14 @@ func TestVerif_C08_Close(t *testing.T) {
 			lbl["close-from-handler"] = true
 		}
 		logAtClose := s.w.logLen()
+		// Close waits for the latest gathering cycle (cancelled or not) to wind down before it returns
+		if lastGatherDone != nil {
+			select {
+			case <-lastGatherDone:
+			default:
+				st.Fail(rt, "C08/final/gather-goroutine-running-after-close", "Close returned while the latest gathering cycle is still running\n%s", desc)
+			}
+		}
 		// every blocked call returns, with an error
 		for _, b := range blocked {
 			err, _ := waitCh(b.ch, "blocked-"+b.name)
@@ -445,7 +458,16 @@ func TestVerif_C08_Close(t *testing.T) {
 		if !ok {
 			st.Fail(rt, "C08/final/goroutine-left", "%d pion/ice goroutine(s) before, %d after Close, e.g.\n%s\n%s", before, after, sample, desc)
 		}
-		if open, _, _ := fn.tally(); len(open) != 0 {
+		// sockets of a cycle superseded by Restart are released when that cycle has wound down (bounded wait,
+		// same grace as the goroutine census)
+		var open []string
+		for d := time.Now().Add(5 * time.Second); time.Now().Before(d); {
+			if open, _, _ = fn.tally(); len(open) == 0 {
+				break
+			}
+			time.Sleep(200 * time.Microsecond)
+		}
+		if len(open) != 0 {
 			st.Fail(rt, "C08/final/socket-left-open", "sockets still open after Close: %v\n%s", open, desc)
 		}
 		if !s.ag.socks[0].isClosed() && !closeStuck {
@@ -462,6 +484,92 @@ func TestVerif_C08_Close(t *testing.T) {
 		nontrivial := lbl["blocked-read"] || lbl["blocked-write"] || lbl["blocked-await"] || lbl["blocked-dial"] || lbl["close-during-gather-exchange"] || lbl["close-from-handler"]
 		st.Record(vfHashStr(desc), nontrivial, labels...)
 		if nontrivial && st.WantSample() {
+			st.Sample(func() string { return desc })
+		}
+	})
+}
+
+
+// Close with a TCP passive candidate whose receive queue is full (a peer floods it while nothing drains).
+func TestVerif_C08_CloseWithFloodedTCP(t *testing.T) {
+	st := vfNewStats(t)
+	lf := simLoggerFactory
+	rapid.Check(t, func(rt *rapid.T) {
+		readBuf := rapid.IntRange(1, 6).Draw(rt, "readBuffer")
+		flood := rapid.IntRange(0, 12).Draw(rt, "floodPackets")
+		startAgent := rapid.Bool().Draw(rt, "startAgent")
+		flavour := rapid.SampledFrom([]string{"Close", "GracefulClose"}).Draw(rt, "flavour")
+		desc := fmt.Sprintf("readBuffer=%d flood=%d started=%v flavour=%s", readBuf, flood, startAgent, flavour)
+		fn := newFakeNet([]fnIface{{Name: "eth0", Up: true, Addrs: []string{"10.0.0.1"}}})
+		ln := newC15Listener()
+		mux := NewTCPMuxDefault(TCPMuxParams{Listener: ln, Logger: lf.NewLogger("mux"), ReadBufferSize: readBuf})
+		defer func() {
+			done := make(chan struct{})
+			go func() { _ = mux.Close(); close(done) }()
+			select {
+			case <-done:
+			case <-time.After(10 * time.Second):
+			}
+		}()
+		a, err := NewAgentWithOptions(WithNet(fn), WithLoggerFactory(lf), WithMulticastDNSMode(MulticastDNSModeDisabled),
+			WithCandidateTypes([]CandidateType{CandidateTypeHost}), WithNetworkTypes([]NetworkType{NetworkTypeTCP4}), WithTCPMux(mux))
+		if err != nil {
+			rt.Fatalf("harness: %v", err)
+		}
+		gotCand := make(chan struct{}, 4)
+		_ = a.OnCandidate(func(c Candidate) {
+			if c == nil {
+				gotCand <- struct{}{}
+			}
+		})
+		if err := a.GatherCandidates(); err != nil {
+			rt.Fatalf("harness: %v", err)
+		}
+		select {
+		case <-gotCand:
+		case <-time.After(20 * time.Second):
+			st.Inconclusive()
+			rt.Fatalf("VERIF-INCONCLUSIVE: gathering did not complete")
+		}
+		if startAgent {
+			if _, err := a.StartAccept("peerUfragXY", "peerPasswordPeerPassword0123"); err != nil {
+				rt.Fatalf("harness: %v", err)
+			}
+		}
+		ufrag, _, _ := a.GetLocalUserCredentials()
+		cp, sp := net.Pipe()
+		remote := &net.TCPAddr{IP: net.IPv4(198, 51, 100, 7), Port: 40000}
+		ln.ch <- &c15Conn{Conn: sp, local: &net.TCPAddr{IP: net.IPv4(10, 0, 0, 1), Port: 8443}, remote: remote}
+		go func() {
+			_ = cp.SetWriteDeadline(time.Now().Add(5 * time.Second))
+			for i := 0; i <= flood; i++ {
+				if _, err := cp.Write(c15Frame(c15StunBinding(ufrag+":peer", true, stun.MethodBinding))); err != nil {
+					return
+				}
+			}
+		}()
+		c11Jitter(rapid.IntRange(0, 40).Draw(rt, "jitter"))
+		done := make(chan error, 1)
+		go func() {
+			if flavour == "GracefulClose" {
+				done <- a.GracefulClose()
+			} else {
+				done <- a.Close()
+			}
+		}()
+		select {
+		case <-done:
+		case <-time.After(25 * time.Second):
+			dead, dump := vfStuck("pion/ice/v4")
+			if dead {
+				st.Fail(rt, "C08/close/never-returns", "Close did not return with a flooded TCP candidate (%s)\n%s", desc, dump)
+			}
+			st.Inconclusive()
+			rt.Fatalf("VERIF-INCONCLUSIVE: Close still running after 25 s (%s)", desc)
+		}
+		_ = cp.Close()
+		st.Record(vfHashStr(desc), flood > readBuf, fmt.Sprintf("flooded:%v", flood > readBuf))
+		if flood > readBuf && st.WantSample() {
 			st.Sample(func() string { return desc })
 		}
 	})
